@@ -53,7 +53,7 @@ MCNext ==
   \/ /\ Derived /\ last = Ok /\ Cardinality({j \in 1..Len(hist) : hist[j].k = "add"}) < MaxFollow
      /\ \E r \in FollowPool, mg \in (IF Tier = "quick" THEN {TRUE} ELSE BOOLEAN) : AAdd(Len(convs), r, TRUE, mg, "record")
 MCSpec == Init /\ [][MCNext]_vars
-MCView == <<convs, last, sigs, IF Len(hist) = 0 THEN <<>> ELSE hist[Len(hist)]>>
+MCView == <<convs, last, IF Len(hist) = 0 THEN <<>> ELSE hist[Len(hist)]>>
 
 LastOp == hist[Len(hist)]
 Res == [out |-> last, conv |-> IF last = Ok THEN convs[Len(convs)] ELSE EmptyConv(D)]
